@@ -4,6 +4,7 @@
   obligations that break when `combine_limit_and_offset`, `Query.__getitem__` or `Query.page` change.
 -/
 import PonyVerif.Gen.Limit
+import PonyVerif.Gen.QueryShape
 import PonyVerif.Py.Lemmas
 import PonyVerif.Lemmas.Limit
 import PonyVerif.Lemmas.Aggr
@@ -281,6 +282,45 @@ theorem C24_order_chain_unique (R S : List α) (a b : α → Int)
 example : isSample [1, 2, 2, 3] [2, 2] 2 = true ∧ isSample [1, 2, 3] [2, 2] 2 = false ∧ isSample [1, 2] [2, 1] 5 = true := by decide
 example : sqlAvg [some 3, none, some 3, some 6] false = some (12, 3) ∧ sqlAvg [some 3, none, some 3, some 6] true = some (9, 2) ∧ sqlAvg [none] false = none := by decide
 example : ∀ x ∈ [((2 : Int), (1 : Int)), (1, 1), (2, 0)], ∀ y ∈ [((2 : Int), (1 : Int)), (1, 1), (2, 0)], x.1 = y.1 → x.2 = y.2 → x = y := by decide
+
+/-! ### source shape of the query methods (regenerated by harness/gen_c24.py on every run) -/
+
+/-- what `Model/Limit.lean` and `Model/Aggr.lean` were written against: `get` fetches `[:2]` and raises for more than one row,
+    `exists` / `first` fetch `[:1]`, `first` orders an unordered query and switches DISTINCT off, `random(limit)` is
+    `order_by('random()')[:limit]`, only a NULL SUM becomes 0, a newer `order_by` criterion is prepended, and the subquery of a
+    grouped bulk delete keeps WHERE, GROUP BY and HAVING -/
+def expectedShape : PonyVerif.Gen.QueryShape.Shape :=
+  { getStop := .num 2, getMultipleAbove := 1, existsStop := .num 1, firstStop := .num 1, firstOrdersUnordered := true,
+    firstWithoutDistinct := true, randomStop := .name "limit", randomOrder := "random()", nullSumIsZero := true,
+    orderByPrepends := true, deleteSubqueryWhere := true, deleteSubqueryGroupBy := true, deleteSubqueryHaving := true }
+
+/-- the source still has the shape the models mirror (breaks when `Query.get/exists/first/random/_aggregate`,
+    `order_by_*` or `construct_delete_sql_ast` change) -/
+theorem C24_bridge_query_shape : PonyVerif.Gen.QueryShape.shape = expectedShape := by decide
+
+/-- the prefix lengths of the model are the ones in the source: with the regenerated bounds, `get` on a prefix of that
+    length distinguishes none / one / several for every result, `exists` and `first` need exactly one row. -/
+theorem C24_prefix_lengths_suffice (R : List α) :
+    (match PonyVerif.Gen.QueryShape.shape.getStop with
+     | .num n => (match window (some n, none) R with | [] => GetResult.none | [x] => .one x | _ => .multiple) = getSpec R
+     | .name _ => False) ∧
+    (match PonyVerif.Gen.QueryShape.shape.existsStop with
+     | .num n => (!(window (some n, none) R).isEmpty) = !R.isEmpty
+     | .name _ => False) ∧
+    (match PonyVerif.Gen.QueryShape.shape.firstStop with
+     | .num n => (window (some n, none) R).head? = R.head?
+     | .name _ => False) := by
+  have hs : PonyVerif.Gen.QueryShape.shape = expectedShape := C24_bridge_query_shape
+  rw [hs]
+  refine ⟨?_, ?_, ?_⟩
+  · exact C24_get R
+  · exact C24_exists R
+  · exact C24_first R
+
+/-- a prefix of length 1 would NOT be enough for `get` (the slip `query[:1]`): two rows would be reported as one. -/
+theorem C24_get_needs_two : ∃ R : List Nat,
+    (match window (some 1, none) R with | [] => GetResult.none | [x] => .one x | _ => .multiple) ≠ getSpec R :=
+  ⟨[1, 2], by decide⟩
 
 /-! ### non-vacuity: concrete instances -/
 example : window (combineT (some 5) (some 1) (some 2) (some 3)) [0,1,2,3,4,5,6,7,8,9] = [4, 5] := by decide
